@@ -121,10 +121,16 @@ void set_current_run(uint64_t idx);   // reported when the worker dies outside a
 __attribute__((noinline)) void scrub_stack(uint8_t byte);
 extern volatile uint8_t g_scrub_byte;
 
+// sanitised builds: every arena byte that is not a declared operand is ASan-poisoned while an operation runs,
+// so redzones are byte-exact on both sides of every operand at once (no-ops in ordinary builds)
+void asan_arm();
+void asan_disarm();
+
 template <class F>
 __attribute__((noinline)) Outcome window(F &&f, bool fail_alloc) {
     Outcome o;
     scrub_stack(g_scrub_byte);
+    asan_arm();
     g_win.allocs = 0; g_win.fail_alloc = fail_alloc ? 1 : 0;
     if (sigsetjmp(g_win.env, 1) == 0) {
         g_win.open = 1;
@@ -136,6 +142,7 @@ __attribute__((noinline)) Outcome window(F &&f, bool fail_alloc) {
         g_win.open = 0; o = g_win.sig; o.kind = 1;
     }
     g_win.fail_alloc = 0;
+    asan_disarm();
     o.allocs = g_win.allocs;
     return o;
 }
